@@ -77,7 +77,7 @@ class Effects:
         if body is None or depth > self.max_depth:
             return None
         self.memo[fn] = None  # recursion guard
-        it = absint.Interp(self.world, body, models=EXTRA_MODELS)
+        it = absint.Interp(self.world, body, models=EXTRA_MODELS, summaries=self, depth=depth)
         outs = it.run(0)
         self.analysed.add(fn)
         res = []
@@ -100,7 +100,7 @@ class Effects:
                         # a whole store also kills everything below
                 elif e[0] == "clear":
                     killed.add(strip_content(e[2])); written.add(strip_content(e[2]))
-                elif e[0] == "push":
+                elif e[0] in ("push", "resize"):
                     written.add(strip_content(e[2]))
                 elif e[0] == "havoc":
                     written.add(strip_content(e[2]))
